@@ -180,6 +180,10 @@ _ARGS = {
 }
 # the remaining functions the programs run through (header, locus construction, dispatch), attributed the same way
 _MORE = {
+    # attribution after round d
+    ('mchap.application.baseclass', 'program.encode_sample_reads'): ['C03'],       # the read tensor and counts every likelihood is taken of
+    ('mchap.application.baseclass', 'program.require_AFP'): ['C03'],                # which report fields switch the posterior summaries on
+    ('mchap.io.loci', '_merge_snps'): ['C06'],                                       # records of one position must share the reference base
     ('mchap.application.baseclass', 'program.header'): ['C07', 'C08'],
     ('mchap.application.baseclass', 'program.header_contigs'): ['C07'],
     ('mchap.application.assemble', 'program.header_contigs'): ['C07'],
@@ -237,6 +241,11 @@ SLICES = {
     'C15': [('assemble', 'construction and fit of the assembly sampler', [AM + 'mcmc.DenovoMCMC'], None)],
     'C02': [('call', 'construction, fit and burn-in of the calling sampler', [CM + 'classes.CallingMCMC', CM + 'classes.GenotypeAllelesMultiTrace.burn'], None),
             (CM + 'classes', 'what fit hands to the sampler', [CM + 'mcmc.mcmc_sampler'], None, None, 'CallingMCMC.fit')],
+    'C05': [(AM + 'mcmc', 'prior parameters handed to every move of the assembly sampler', [AM + 'mutation.', AM + 'structural.', AM + 'tempering.'],
+             None, ['inbreeding', 'log_unique_haplotypes', 'unique_haplotypes'], '_denovo_assembler')],
+    'C10': [('assemble', 'per-sample parameters of the sampler', [AM + 'mcmc.DenovoMCMC'], None, ['ploidy', 'inbreeding', 'temperatures']),
+            ('call', 'per-sample parameters of the sampler', [CM + 'classes.CallingMCMC'], None, ['ploidy', 'inbreeding']),
+            ('call_exact', 'per-sample parameters of the exact caller', [CM + 'exact.'], None, ['ploidy', 'inbreeding'])],
     'C09': [(PM + 'classes', 'what fit hands to the sampler (no cache from outside the fit)', [PM + 'mcmc.mcmc_sampler'], None, None, 'PedigreeCallingMCMC.fit'),
             (CM + 'classes', 'what fit hands to the sampler (no cache from outside the fit)', [CM + 'mcmc.mcmc_sampler'], None, None, 'CallingMCMC.fit')],
     'C03': [('call_exact', 'exact posterior calls and the fields derived from them', [CM + 'exact.', J + '.index_as_genotype_alleles'],
